@@ -238,6 +238,8 @@ func main() {
 	switch os.Args[1] {
 	case "repo":
 		cmdRepo(os.Args[2:])
+	case "cron":
+		cmdCron(os.Args[2:])
 	case "mut":
 		cmdMut(os.Args[2:])
 	case "hook":
